@@ -25,6 +25,7 @@
 #include "hep/mc/multi_channel_summary.hpp"
 
 #include <cmath>
+#include <cstdio>
 #include <fstream>
 #include <iostream>
 #include <string>
@@ -130,8 +131,16 @@ public:
         if ((mode_ == callback_mode::silent_and_write_chkpt) ||
             (mode_ == callback_mode::verbose_and_write_chkpt))
         {
-            std::ofstream out(filename_);
-            chkpt.serialize(out);
+            // write a temporary file and move it into place afterwards: the checkpoint file is then
+            // complete at every instant, even if the process is killed while it writes
+            std::string const temporary = filename_ + ".tmp";
+
+            {
+                std::ofstream out(temporary);
+                chkpt.serialize(out);
+            }
+
+            std::rename(temporary.c_str(), filename_.c_str());
         }
 
         return perform_more_iterations;
